@@ -361,6 +361,7 @@ func installPreState(t *rapid.T, r *rec.Recorder, w *world, ctx sdk.Context) str
 				continue
 			}
 			g := newTagger(t)
+			g.rejPct = 8
 			gs := g.clientGenesis([]string{n}, w.c.ChainID, false)
 			for k, c := range g.excluded {
 				for i := 0; i < c; i++ {
